@@ -11,7 +11,7 @@ PROPERTY = 'C04'
 META = {
     'level': 'exploration',
     'technique': 'runtime monitor on recorded fragment sequences (progress, size bound, status discipline, reassembly == model), exhaustive over a scaled-down (element size, tag length, start, count, budget) space',
-    'text': 'Writes also include values that compare equal to what is stored but encode differently (signed zeros over zeros), so that "stores exactly those values" is judged on the encoded value. With the reply budget Logix.MAX_BYTES set to B, every (element size 1/2/4/8 incl. BOOL/REAL/LREAL and a signed/unsigned pair, tag length N, start i, count n<=N-i, '
+    'text': 'The same transfer shape (600 or 300 elements at the stock budget, reads and tiled writes) is run for pairs of equal-sized element types one after the other in one process, each order in a different shard. Writes also include values that compare equal to what is stored but encode differently (signed zeros over zeros), so that "stores exactly those values" is judged on the encoded value. With the reply budget Logix.MAX_BYTES set to B, every (element size 1/2/4/8 incl. BOOL/REAL/LREAL and a signed/unsigned pair, tag length N, start i, count n<=N-i, '
             'B in 1..3*size+1) is driven as a complete Read Tag Fragmented transfer: the harness advances the byte offset by the data received until status 0x00. Each reply must be 0x06 or '
             '0x00, carry >=1 whole element and <= ceil(B/size) elements, 0x00 exactly when the range is exhausted, at most n fragments, and the concatenation must equal the requested slice of '
             'the values written beforehand. Write Tag Fragmented: every two-piece tiling and seeded k-piece tilings (in order and shuffled) must store exactly the values and leave all other '
